@@ -91,6 +91,16 @@ func c02Serve(c *c02Case, perm []int) c02Obs {
 	if c.Pre {
 		e.Pre(func(next echo.HandlerFunc) echo.HandlerFunc { return func(ctx echo.Context) error { return next(ctx) } })
 	}
+	if (len(c.Req.Path)+len(c.Req.Host)+len(c.Routes))%2 == 0 {
+		// the application has just answered requests for the OTHER host names (and the default one): nothing those
+		// left behind (pooled context, whatever a router remembers) may decide which table serves this request
+		for _, h := range append([]c02Host{{Host: "unregistered.example"}, {Host: ""}}, c.Hosts...) {
+			if h.Host != c.Req.Host {
+				rServe(e, &cur, rReq{Method: c.Req.Method, Path: c.Req.Path, Host: h.Host})
+			}
+		}
+		table = -1
+	}
 	rServe(e, &cur, c.Req)
 	return c02Obs{cur, table}
 }
